@@ -73,6 +73,13 @@ def conclude(prop, tier, seed, verdicts, scr):
     rc = 0
     nviol = 0
     import replay
+    failing_keys = set()
+    for kind, src, v, d, r in verdicts:
+        if kind == "e2":
+            for l in r.get("lemmas", []):
+                if not l["ok"] and not l.get("witness"):
+                    failing_keys.add(l.get("key") or l["name"])
+    printed = set()
     for kind, src, v, d, r in verdicts:
         name = src.name if kind == "kani" else src["name"]
         if kind == "e2":
@@ -82,7 +89,9 @@ def conclude(prop, tier, seed, verdicts, scr):
                     continue
                 key = l.get("key") or l["name"]
                 if (prop, key) in open_f:
-                    lines.append("KNOWN-FINDING: property=%s %s [%s]" % (prop, open_f[(prop, key)], key))
+                    if key not in printed:
+                        printed.add(key)
+                        lines.append("KNOWN-FINDING: property=%s %s [%s]" % (prop, open_f[(prop, key)], key))
                     continue
                 if v == "inconclusive":
                     continue
@@ -100,7 +109,8 @@ def conclude(prop, tier, seed, verdicts, scr):
                 rc = max(rc, 2) if rc != 1 else 1
             # listed findings that no longer fail are reported, not alarmed about
             for l in r.get("lemmas", []):
-                if l["ok"] and l.get("key") and (prop, l["key"]) in open_f:
+                if l["ok"] and l.get("key") and (prop, l["key"]) in open_f and l["key"] not in failing_keys and ("stale", l["key"]) not in printed:
+                    printed.add(("stale", l["key"]))
                     lines.append("NOTE property=%s finding %s no longer reproduces (stale entry in known_findings.txt)" % (prop, l["key"]))
             continue
         if v == "ok":
